@@ -86,6 +86,15 @@ def gen(ctx):
             hist.append((table, ["USER alice", "PASS wrong", p]))
             hist.append((table, ["USER bob", "USER alice", p]))
             hist.append((table, ["USER alice", "PASS secret", "USER alice", p]))
+    # names the server OBJECT knows (its methods and attributes) are not commands: sent as verbs before a completed
+    # login they reach nothing (a command table derived from the class would make helpers of the handlers reachable)
+    import aioftp
+
+    for name in sorted(n for n in dir(aioftp.Server) if not n.startswith("__") and n.lower().rstrip("_") not in c05.KNOWN_VERBS):
+        for line in (name + " f.txt", name.upper() + " d"):
+            hist.append(("noanon", [line]))
+            hist.append(("noanon", ["USER alice", line]))
+            hist.append(("anon", ["USER alice", "PASS wrong", line]))
     # a listener left over from a completed login, then USER for another account (no PASS, or a wrong one), then a transfer
     for table in ("anon", "noanon"):
         for passive in ("EPSV", "PASV"):
